@@ -91,7 +91,18 @@ impl WriteSource for pr::ExprKind {
         use pr::ExprKind::*;
 
         match &self {
-            Ident(ident) => Some(ident.to_string()),
+            Ident(ident) => {
+                // as `Display for Ident`, except that a reserved word needs backticks as well
+                // (a bare `null` or `let` would come back as a literal / keyword)
+                let parts = ident.iter().map(|part| {
+                    if keywords().contains(part.as_str()) {
+                        format!("`{part}`")
+                    } else {
+                        pr::Ident::from_name(part).to_string()
+                    }
+                });
+                Some(parts.collect::<Vec<_>>().join("."))
+            }
 
             Pipeline(pipeline) => SeparatedExprs {
                 inline: " | ",
@@ -336,7 +347,8 @@ fn keywords() -> &'static HashSet<&'static str> {
     static KEYWORDS: OnceLock<HashSet<&'static str>> = OnceLock::new();
     KEYWORDS.get_or_init(|| {
         HashSet::from_iter([
-            "let", "into", "case", "prql", "type", "module", "internal", "func",
+            "let", "into", "case", "prql", "type", "module", "internal", "func", "import", "enum",
+            "null", "true", "false",
         ])
     })
 }
